@@ -732,15 +732,15 @@ type Function struct {
 	Lambda     bool // i.e. has no name.
 }
 
-func WriteStrings(out *strings.Builder, list []Object, before, sep, after string) {
-	out.WriteString(before)
+func WriteStrings(out io.StringWriter, list []Object, before, sep, after string) {
+	_, _ = out.WriteString(before)
 	for i, p := range list {
 		if i > 0 {
-			out.WriteString(sep)
+			_, _ = out.WriteString(sep)
 		}
-		out.WriteString(p.Inspect())
+		_, _ = out.WriteString(p.Inspect())
 	}
-	out.WriteString(after)
+	_, _ = out.WriteString(after)
 }
 
 func (f Function) Unwrap(forceStringKeys bool) any {
@@ -867,7 +867,7 @@ func (sa SmallArray) Inspect() string {
 	if sa.len == 0 {
 		return "[]"
 	}
-	out := strings.Builder{}
+	out := GuardedBuilder{} // (the same big element can be there many times: the text is not bounded by the size of the value.)
 	WriteStrings(&out, sa.smallArr[:sa.len], "[", ",", "]")
 	return out.String()
 }
@@ -1049,7 +1049,7 @@ type BigArray struct {
 func (ao BigArray) Unwrap(forceStringKeys bool) any { return Unwrap(ao.elements, forceStringKeys) }
 func (ao BigArray) Type() Type                      { return ARRAY }
 func (ao BigArray) Inspect() string {
-	out := strings.Builder{}
+	out := GuardedBuilder{}
 	WriteStrings(&out, ao.elements, "[", ",", "]")
 	return out.String()
 }
@@ -1170,7 +1170,7 @@ func (m SmallMap) Inspect() string {
 	if m.len == 0 {
 		return "{}"
 	}
-	out := strings.Builder{}
+	out := GuardedBuilder{}
 	out.WriteString("{")
 	for i := range m.len {
 		if i > 0 {
@@ -1185,7 +1185,7 @@ func (m SmallMap) Inspect() string {
 }
 
 func (m *BigMap) Inspect() string {
-	out := strings.Builder{}
+	out := GuardedBuilder{}
 	out.WriteString("{")
 	for i, kv := range m.kv {
 		if i != 0 {
